@@ -1,12 +1,75 @@
 /-
 Property C02 — step thresholds count distinct, authorized, validly signing functionaries.
-Model: InToto/Model/Verify.lean (`loadLinksForStep`, `linkAuthorized`, `verifiedLinks`).
-(Interim: the unbounded theorems are being proved, see /verif/wip/PipeThresholds.lean.)
+
+ONLY property theorems live here (helper lemmas: InToto/Proofs/PipeThresholds.lean, PipeSigs.lean).
+Model: InToto/Model/Verify.lean (`loadLinksForStep`, `linkAuthorized`, `verifiedLinks`; the threshold
+comparison is the `v.length < threshold` test inside `verifyAux`).
 -/
-import InToto.Model.Verify
+import InToto.Proofs.PipeThresholds
+import InToto.Proofs.PipeSigs
 
 namespace InToto.C02
-open InToto InToto.Metadata InToto.Verify
+open InToto InToto.Schema InToto.Metadata InToto.Verify InToto.PipeProofs
+
+/-- signature verification of the model never panics, so the hypotheses below are met for every world -/
+theorem never_panics (W : World) : ∀ md k, (mdVerify W md k).isPanic = false :=
+  fun md k => mdVerify_no_panic W md k
+
+/-- C02 (per link): a link is counted under a key id iff that id is authorized for the step —
+    EITHER it is listed for the step, defined in the layout and that key verifies the link's
+    current content, OR the link carries, under that id, a certificate that satisfies one of the
+    step's constraints and chains to a root (C07), whose own key has that id and verifies the link. -/
+theorem counted_iff_authorized (W : World) (layout : TVal) (st : Step) (roots : List Str) (signer : Str) (md : Md) :
+    linkAuthorized W layout st roots signer md = .ok true ↔ Authorized W layout st roots signer md :=
+  linkAuthorized_iff W layout st roots signer md (fun k => mdVerify_no_panic W md k)
+
+/-- C02 (soundness): every counted link is one of the loaded links and is authorized. -/
+theorem counted_sound (W : World) (layout : TVal) (st : Step) (roots : List Str) (links v : List (Str × Md))
+    (h : verifiedLinks W layout st roots links = .ok v) :
+    ∀ kv ∈ v, kv ∈ links ∧ Authorized W layout st roots kv.1 kv.2 :=
+  verifiedLinks_sound W layout st roots links v (never_panics W) h
+
+/-- C02 (completeness): every loaded link that is authorized is counted — whatever unauthorized,
+    invalid or unparsable files also lie in the directory (they only add or remove OTHER entries). -/
+theorem authorized_always_counted (W : World) (layout : TVal) (st : Step) (roots : List Str) (links v : List (Str × Md))
+    (h : verifiedLinks W layout st roots links = .ok v) :
+    ∀ kv ∈ links, Authorized W layout st roots kv.1 kv.2 → kv ∈ v :=
+  verifiedLinks_complete W layout st roots links v (never_panics W) h
+
+/-- C02 (distinct functionaries): the loader files each link under one key id, at most one link per
+    id, and the counted links inherit that: further links from a functionary already counted never
+    contribute. -/
+theorem counted_ids_distinct (W : World) (layout : TVal) (st : Step) (roots : List Str)
+    (files : List (Str × Str)) (v : List (Str × Md))
+    (h : verifiedLinks W layout st roots (loadLinksForStep st.name files) = .ok v) :
+    (v.map Prod.fst).Nodup :=
+  verifiedLinks_nodup W layout st roots _ v (never_panics W) h (loadLinksForStep_nodup st.name files)
+
+/-- C02 (order independence, also C10): the set and the NUMBER of counted links do not depend on the
+    order in which the Go map of loaded links is ranged over. -/
+theorem counted_order_independent (W : World) (layout : TVal) (st : Step) (roots : List Str)
+    (l₁ l₂ v₁ v₂ : List (Str × Md)) (hp : l₁.Perm l₂)
+    (h1 : verifiedLinks W layout st roots l₁ = .ok v₁) (h2 : verifiedLinks W layout st roots l₂ = .ok v₂) :
+    v₁.Perm v₂ ∧ v₁.length = v₂.length :=
+  have hperm := verifiedLinks_perm W layout st roots l₁ l₂ v₁ v₂ hp (never_panics W) h1 h2
+  ⟨hperm, hperm.length_eq⟩
+
+/-- C02: an unsigned link is never counted -/
+theorem unsigned_never_counted (W : World) (layout : TVal) (st : Step) (roots : List Str) (signer : Str) (md : Md)
+    (h : sigsOf md = []) : linkAuthorized W layout st roots signer md ≠ .ok true := by
+  intro hc
+  exact unsigned_not_authorized W layout st roots signer md h ((counted_iff_authorized W layout st roots signer md).mp hc)
+
+/-- C02: a link altered after signing, or signed by another key, is not counted via the key route:
+    the listed key must verify the CURRENT content -/
+theorem key_route_needs_valid_signature (W : World) (layout : TVal) (st : Step) (roots : List Str) (signer : Str) (md : Md)
+    (hnocert : ∀ s, sigFor md signer = some s → s.cert = [])
+    (hbad : ∀ k, lookup signer (layoutKeys layout) = some k → mdVerify W md k ≠ .ok ()) :
+    linkAuthorized W layout st roots signer md ≠ .ok true := by
+  intro hc
+  rcases (counted_iff_authorized W layout st roots signer md).mp hc with ⟨_, k, hk, hv⟩ | ⟨s, cd, hs, hne, _⟩
+  · exact hbad k hk hv
+  · exact hne (hnocert s hs)
 
 /-- only files named `<step>.<8 characters>.link` are considered for a step -/
 theorem link_file_names :
@@ -21,9 +84,5 @@ theorem link_file_names :
 theorem garbage_ignored :
     (loadLinksForStep (lit% "s") [(lit% "s.00000000.link", lit% "not json"), (lit% "s.11111111.link", lit% "{"),
       (lit% "s.22222222.link", lit% "[1,2]")]).length = 0 := by decide
-
-/-- no loaded links, no counted links -/
-theorem nothing_loaded_nothing_counted (W : World) (lay : Schema.TVal) (st : Step) (r : List Str) :
-    verifiedLinks W lay st r [] = .ok [] := rfl
 
 end InToto.C02
